@@ -57,6 +57,10 @@ class CaseCtx:
             ops.append({"op": "set_root", "path": "/vws/R/sa"})
         for p in case_list(self.case.get("plugins")):
             ops.append({"op": "mark_plugin", "path": UNI.paths[p]})
+        # an installed (site-packages) plugin found through a pytest11 entry point is registered as a plugin file too
+        # and so carries BOTH flags; it stays third-party for resolution (workspace plugins rank before it)
+        if "tp" in self.case["ws"] and h != 0:
+            ops.append({"op": "mark_plugin", "path": UNI.paths["tp"]})
         for slot in self.case["order"]:
             ops.append({"op": "analyze", "path": UNI.paths[slot], "text": self.files[slot].text})
         return ops
